@@ -283,4 +283,76 @@ PROPS = {
         "unproved": [],
         "assumes": ["whole-second datetimes"],
     },
+    "C11": {
+        "level_text": "partial: kernel-checked theorem (exact reals) that the phase is in [0, 28) for "
+                      "every date, plus the same last stage checked in IEEE binary64 for all 360 integer "
+                      "elongations by kernel evaluation (decide +kernel, no native_decide); the model is "
+                      "compared with the implementation on ALL 3 652 059 dates on every run. Daily "
+                      "advance and agreement with an independent elongation are not theorems.",
+        "level_note": "The exhaustive date sweep is correspondence (sampling of a finite domain, complete), "
+                      "not a proof. phase_daily_advance is left unproved (DESIGN §7 C11 stretch).",
+        "lean_modules": ["Astral.Props.C11", "Astral.Props.C11Float"],
+        "theorems": [
+            "Astral.C11.elongation_range", "Astral.C11.last_stage", "Astral.C11.phase_range",
+            "Astral.C11Float.phase_table",
+        ],
+        "groups": [G("corr_moon", "moon_phase", 3000, 20000, bulk_quick=["phase_all_dates_bulk"],
+                     bulk_thorough=["phase_all_dates_bulk"]),
+                   G("corr_julian", "julian", 1200, 20000)],
+        "unproved": ["daily advance in (0.7, 1.3) for every date", "agreement with an independent "
+                     "lunar/solar elongation to 0.25"],
+        "assumes": [],
+    },
+    "C12": {
+        "level_text": "partial: kernel-checked theorems (exact reals) that lunar elevation ∈ [−90, 90], "
+                      "zenith = 90 − elevation ∈ [0, 180], azimuth ∈ [0, 360); dependence on the instant "
+                      "only is carried by the tie (the model takes the UTC instant; the harness feeds "
+                      "naive, UTC-aware and zoned spellings). 0.05° agreement with an independent lunar "
+                      "theory is not a theorem and no such ephemeris is available offline.",
+        "level_note": "The pinned copy of the Van Flandern–Pulkkinen table (MoonTable.lean) is the "
+                      "reference for the numerical clause: any coefficient change breaks correspondence.",
+        "lean_modules": ["Astral.Props.C12"],
+        "theorems": [
+            "Astral.C12.moon_elevation_range", "Astral.C12.moon_zenith_def",
+            "Astral.C12.moon_azimuth_range", "Astral.C12.wrap_identity", "Astral.C12.moon_zenith_range",
+        ],
+        "groups": [G("corr_moon", "moon_angles", 4000, 100000), G("corr_moon", "moon_position", 3000, 60000)],
+        "unproved": ["agreement with an independent lunar ephemeris to 0.05°"],
+        "assumes": ["IEEE: the modulo can round to exactly 360.0 — handled by the code's final wrap"],
+    },
+    "C13": {
+        "level_text": "partial: kernel-checked theorems (exact reals): a sign change over the hour puts "
+                      "exactly the selected root of the interpolating parabola in [0,1] and it is a zero "
+                      "of the interpolant; the interpolant passes through the three samples; the event's "
+                      "hour/minute fields are in range and within the scanned hour; the zero level is "
+                      "the stated semi-diameter/parallax altitude. Agreement to 0.45° with lunar "
+                      "positions is not a theorem.",
+        "level_note": "assumes a ≠ 0 (three collinear samples raise ZeroDivisionError; measure zero).",
+        "lean_modules": ["Astral.Props.C13"],
+        "theorems": [
+            "Astral.C13.quad_root_in_unit", "Astral.C13.interpolant_samples",
+            "Astral.C13.event_time_fields", "Astral.C13.threshold_def",
+        ],
+        "groups": [G("corr_moon", "moon_riseset", 3000, 60000), G("corr_moon", "moon_position", 1500, 30000)],
+        "unproved": ["0.45° agreement of the crossing altitude", "hourly interpolation error"],
+        "assumes": ["a ≠ 0 in the quadratic"],
+    },
+    "C14": {
+        "level_text": "partial: kernel-checked theorems about the date logic around an uninterpreted "
+                      "scan, for every zone function: the only outcomes are a time, None, or 'Moon never "
+                      "rises/sets'; an event the scan offers on the requested date (on the UTC day or, "
+                      "when that day is empty, on either neighbour) is returned; the choice among "
+                      "several events keeps one of them. Completeness of the hourly scan itself is not "
+                      "a theorem.",
+        "level_note": "Scan errors (ZeroDivisionError for a degenerate quadratic, bare ValueError for a "
+                      "zero argument) are assumed absent in moonWrapper_outcomes.",
+        "lean_modules": ["Astral.Props.C13", "Astral.Props.C03"],
+        "theorems": [
+            "Astral.C13.moonWrapper_outcomes", "Astral.C13.moonWrapper_complete", "Astral.C13.moon_choice",
+            "Astral.C03.moonWrapper_on_date",
+        ],
+        "groups": [G("corr_moon", "moon_riseset", 4000, 80000)],
+        "unproved": ["every real crossing produces an hourly sign change (scan completeness, 8 minutes)"],
+        "assumes": ["the scan does not raise"],
+    },
 }
